@@ -192,7 +192,7 @@ def gen_program(r, nulls=False, policy=None):
     T.pop("metadata", None)
     T = _retarget_strings(r, T)
     # keyed lists / sets keep their members; member names are among NAMES -> safe
-    if r.random() < 0.5:
+    if r.random() < 0.7:
         T["metadata"] = {"labels": {"app": r.choice(["web", "db"])}}
         if r.random() < 0.3:
             T["metadata"]["annotations"] = {"team": "x"}
@@ -345,6 +345,62 @@ def identity_path(path) -> bool:
     return len(path) == 2 and keys in (("metadata", "name"), ("metadata", "namespace"))
 
 
+# --------------------------------------------------------------------------- the API server's bookkeeping
+
+SERVER_KEYS = ("uid", "generation", "resourceVersion")
+_UIDS = [0]
+
+
+def _outside_metadata(obj):
+    return {k: v for k, v in obj.items() if k not in ("metadata", "status")} if isinstance(obj, dict) else obj
+
+
+class ServerRules:
+    """what the API server does to an object it stores: `metadata.uid` is set once per created object,
+    `metadata.resourceVersion` changes on every write, `metadata.generation` only when something outside
+    `metadata` / `status` changed.  Used as the cluster's `decorate` hook and for direct edits of the
+    stored object between passes."""
+
+    def __init__(self):
+        self.cluster = None
+
+    def stamp(self, old, new):
+        if not isinstance(new, dict) or not isinstance(new.get("metadata"), dict):
+            return new
+        new = copy.deepcopy(new)
+        md = new["metadata"]
+        omd = old.get("metadata") if isinstance(old, dict) and isinstance(old.get("metadata"), dict) else None
+        if omd is None or "uid" not in omd:
+            if "uid" not in md:
+                _UIDS[0] += 1
+                md["uid"] = f"uid-{_UIDS[0]}"
+            md.setdefault("generation", 1)
+            md.setdefault("resourceVersion", "1")
+            return new
+        md["uid"] = omd["uid"]
+        gen = omd.get("generation", 1)
+        if cn(_outside_metadata(old)) != cn(_outside_metadata(new)):
+            gen = gen + 1
+        md["generation"] = gen
+        try:
+            md["resourceVersion"] = str(int(omd.get("resourceVersion", "0")) + 1)
+        except (TypeError, ValueError):
+            md["resourceVersion"] = "1"
+        return new
+
+    def __call__(self, obj):
+        old = self.cluster.objects.get(KEY) if self.cluster is not None else None
+        return self.stamp(old, obj)
+
+
+def without_server_keys(obj):
+    if not isinstance(obj, dict) or not isinstance(obj.get("metadata"), dict):
+        return obj
+    out = dict(obj)
+    out["metadata"] = {k: v for k, v in obj["metadata"].items() if k not in SERVER_KEYS}
+    return out
+
+
 # --------------------------------------------------------------------------- running the real thing
 
 class Prepared:
@@ -381,9 +437,11 @@ class Prepared:
             fn = await self.prep()
             if not isinstance(fn, ResourceFunction):
                 return [{"prepare": ku.outcome_obs(fn)}]
-            c = clmod.Cluster()
+            rules = ServerRules()
+            c = clmod.Cluster(decorate=rules)
+            rules.cluster = c
             if stored is not None:
-                c.put(*KEY, stored)
+                c.put(*KEY, rules.stamp(None, stored))
             for step in steps:
                 cur = c.get(*KEY)
                 if step is not None:
@@ -391,7 +449,7 @@ class Prepared:
                     if new is None:
                         c.objects.pop(KEY, None)
                     else:
-                        c.put(*KEY, new)
+                        c.put(*KEY, rules.stamp(cur, new))
                 before = copy.deepcopy(c.get(*KEY))
                 n0 = len(c.log)
                 try:
@@ -418,7 +476,7 @@ def obs_abstract(o):
         out["d"] = cn(o["o"].get("d"))
     return {"o": out,
             "reqs": [{"m": q["m"], "b": cn(decode_ann(q["b"])) if q["m"] != "DELETE" else None} for q in o["reqs"]],
-            "cluster": None if o["after"] is None else cn(decode_ann(o["after"]))}
+            "cluster": None if o["after"] is None else cn(without_server_keys(decode_ann(o["after"])))}
 
 
 def model_abstract(rs):
@@ -433,7 +491,7 @@ def model_abstract(rs):
         out.append({"o": o,
                     "reqs": [{"m": q["m"], "b": cn(from_wire(q["b"])) if q["m"] != "DELETE" else None}
                              for q in r["reqs"]],
-                    "cluster": None if r["cluster"] is None else cn(from_wire(r["cluster"]))})
+                    "cluster": None if r["cluster"] is None else cn(without_server_keys(from_wire(r["cluster"])))})
     return out
 
 
